@@ -137,8 +137,16 @@ pub fn packed_order<O: Order4>(ctx: &Ctx, total: &mut Collector) {
         });
         let (bad, nt) = match fast {
             Ok((0, nt)) => (0, nt),
-            _ => {
-                // something failed (or panicked): value by value, itemise the first few
+            Ok((bad, nt)) => {
+                // some values fail: itemise the first few of the chunk
+                let first: Vec<u32> = pv::catch(|| (0..len).map(|k| start + k).filter(|v| !packed_ok::<O>(*v)).take(ITEMISE_PER_CHUNK as usize).collect()).unwrap_or_default();
+                for v in first {
+                    check_packed::<O>(&mut c, v);
+                }
+                (bad, nt)
+            }
+            Err(_) => {
+                // a panic: value by value
                 let mut nt = 0;
                 let mut bad = 0u64;
                 for k in 0..len {
@@ -229,14 +237,24 @@ pub fn from_u32(ctx: &Ctx, total: &mut Collector) {
             bad
         });
         let mut bad = 0u64;
-        if fast != Ok(0) {
-            for k in 0..len {
-                let v = start + k;
-                if pv::catch(|| from_u32_ok(v)) != Ok(true) {
-                    bad += 1;
-                    if bad <= ITEMISE_PER_CHUNK {
-                        if let Err(msg) = pv::catch(|| check_from_u32(&mut c, v)) {
-                            c.violation("C12/packed/From<u32>/panic", 1.0, || json!({"sub": "from-u32", "input": h32(v), "observed": {"panic": msg}, "expected": "no panic"}));
+        match fast {
+            Ok(0) => {}
+            Ok(b) => {
+                bad = b;
+                let first: Vec<u32> = pv::catch(|| (0..len).map(|k| start + k).filter(|v| !from_u32_ok(*v)).take(ITEMISE_PER_CHUNK as usize).collect()).unwrap_or_default();
+                for v in first {
+                    check_from_u32(&mut c, v);
+                }
+            }
+            Err(_) => {
+                for k in 0..len {
+                    let v = start + k;
+                    if pv::catch(|| from_u32_ok(v)) != Ok(true) {
+                        bad += 1;
+                        if bad <= ITEMISE_PER_CHUNK {
+                            if let Err(msg) = pv::catch(|| check_from_u32(&mut c, v)) {
+                                c.violation("C12/packed/From<u32>/panic", 1.0, || json!({"sub": "from-u32", "input": h32(v), "observed": {"panic": msg}, "expected": "no panic"}));
+                            }
                         }
                     }
                 }
